@@ -28,6 +28,9 @@ pub enum B {
     Timeout,
     /// like Timeout, but the shell ignores SIGTERM and the command ends by itself after 2 s
     TimeoutImmune,
+    /// Markdown only: the shell kills itself with SIGKILL (no exit code); this and the following test cases are reported
+    /// as some failure - never as skipped, never as success
+    Killed,
 }
 
 #[derive(Clone, Debug, Serialize, Deserialize, Hash)]
@@ -65,6 +68,7 @@ impl Doc {
             B::ScriptExit { code } => (format!("exit {code}"), vec![], None, String::new()),
             B::Detached => ("sleep 0.05".into(), vec![], None, "detached: true".into()),
             B::Timeout => ("sleep 30".into(), vec![], None, "timeout: 400ms".into()),
+            B::Killed => ("kill -9 $$".into(), vec![], None, String::new()),
             B::TimeoutImmune => ("trap '' TERM; sleep 2".into(), vec![], None, "timeout: 400ms".into()),
         };
         let cmd = if extra.is_empty() { format!("{log}; {cmd}") } else { format!("{log}; {extra}; {cmd}") };
@@ -149,7 +153,7 @@ pub fn reference_doc(doc: &Doc, seq: &[(String, usize, B, i32)]) -> (Vec<&'stati
         let (id, idx, b, skip) = &seq[i];
         log.push(format!("{id}:{idx}"));
         let code = match b {
-            B::Pass | B::FailOutput | B::Detached | B::Timeout | B::TimeoutImmune => 0,
+            B::Pass | B::FailOutput | B::Detached | B::Timeout | B::TimeoutImmune | B::Killed => 0,
             B::FailExit => 1,
             B::Exit { code, .. } | B::ScriptExit { code } => *code,
         };
@@ -160,7 +164,7 @@ pub fn reference_doc(doc: &Doc, seq: &[(String, usize, B, i32)]) -> (Vec<&'stati
             }
             return (vec!["<error>"], log);
         }
-        if code == *skip && !matches!(b, B::Pass | B::FailOutput | B::Detached | B::Timeout | B::TimeoutImmune) {
+        if code == *skip && !matches!(b, B::Pass | B::FailOutput | B::Detached | B::Timeout | B::TimeoutImmune | B::Killed) {
             if cram {
                 // the script runs on; the document is reported skipped afterwards
                 for (id2, idx2, _, _) in &seq[i + 1..] {
@@ -176,6 +180,15 @@ pub fn reference_doc(doc: &Doc, seq: &[(String, usize, B, i32)]) -> (Vec<&'stati
             B::Exit { expected, .. } => kinds.push(if *expected { "success" } else { "invalid_exit_code" }),
             B::ScriptExit { .. } => unreachable!(),
             B::Detached => kinds.push("detached?"),
+            B::Killed => {
+                // no exit code: this one and all following are failures of some kind ("!ok" = neither success nor skipped)
+                kinds.push("!ok");
+                for (id2, idx2, _, _) in &seq[i + 1..] {
+                    let _ = (id2, idx2);
+                    kinds.push("!ok");
+                }
+                return (kinds, log);
+            }
             B::Timeout | B::TimeoutImmune => {
                 kinds.push("timeout");
                 for _ in &seq[i + 1..] {
@@ -263,7 +276,7 @@ impl Engine for VcCli {
         let quick = tier == Tier::Quick;
         let mut v = vec![];
         // ---------------- C15
-        let md_items = [B::Pass, B::FailOutput, B::FailExit, B::Exit { code: 80, expected: false }, B::Exit { code: 80, expected: true }, B::Exit { code: 81, expected: false }, B::Exit { code: 81, expected: true }];
+        let md_items = [B::Pass, B::FailOutput, B::FailExit, B::Exit { code: 80, expected: false }, B::Exit { code: 80, expected: true }, B::Exit { code: 81, expected: false }, B::Exit { code: 81, expected: true }, B::Killed];
         let depth = if quick { 2 } else { 3 };
         for w in words_upto(md_items.len(), depth) {
             if w.is_empty() {
@@ -286,7 +299,8 @@ impl Engine for VcCli {
                     v.push(CliCase::Skip { doc: doc.clone(), second });
                 }
                 // the same Markdown document executed as one script (`--cram-compat`): default and front-matter skip code
-                if setting < 2 {
+                // (not with a shell that kills itself: that ends the single script, a documented limit of that mode)
+                if setting < 2 && !tests.contains(&B::Killed) {
                     let mut d2 = doc.clone();
                     d2.script_mode = true;
                     v.push(CliCase::Skip { doc: d2.clone(), second: None });
@@ -586,7 +600,8 @@ fn check_skip(case: &CliCase, doc: &Doc, second: &Option<Vec<B>>) -> CaseResult 
     match kinds {
         Ok(k) => {
             let got: Vec<&str> = k.iter().map(|s| s.as_str()).collect();
-            if got != want {
+            let same = got.len() == want.len() && got.iter().zip(want.iter()).all(|(g, w)| if *w == "!ok" { !matches!(*g, "success" | "skipped") } else { g == w });
+            if !same {
                 let skipped_expected = doc_kinds.iter().all(|x| *x == "skipped") && !doc_kinds.is_empty();
                 let clause = if skipped_expected { "skip-code-skips-whole-document" } else if got.iter().any(|x| *x == "skipped") { "nothing-else-is-skipped" } else { "result-kinds" };
                 res.findings.push(Finding::new("C15", clause, format!("{}: {want:?}", describe()), format!("{got:?}")));
